@@ -15,6 +15,10 @@ func main() {
 		core.WorkerMain(os.Args[2:])
 		return
 	}
+	if len(os.Args) == 5 && os.Args[1] == "c01trace" {
+		props.C01TraceMain(os.Args[2:])
+		return
+	}
 	if len(os.Args) == 3 && os.Args[1] == "clifixtures" {
 		if err := props.CLIFixtures(os.Args[2]); err != nil {
 			fmt.Println(err)
